@@ -3,7 +3,7 @@ from .fam_cluster import ClusterFam
 from .prop_C03 import REPLICA_TRUST
 
 PROP = Property(
-    "C01", ["HsVerif.Props.C01"], [ClusterFam("c01")],
+    "C01", ["HsVerif.Props.C01", "HsVerif.Props.C01Replica"], [ClusterFam("c01")],
     facts=[
         {"func": "protocol/rules/chainedhotstuff.go:ChainedHotStuff.VoteRule", "order": ["BlockHash", "QuorumCert", "Get", "BlockHash", "QuorumCert", "Get", "View", "View", "Extends"]},
         {"func": "protocol/rules/chainedhotstuff.go:ChainedHotStuff.CommitRule", "order": ["qcRef", "qcRef", "View", "View", "qcRef", "Parent", "Hash", "View", "View", "Parent", "Hash", "View", "View"]},
@@ -16,7 +16,7 @@ PROP = Property(
         "script generator consults the Lean model interactively to aim Byzantine messages at the honest replicas' real state; the scripts themselves are then ordinary inputs to both drivers",
     ],
     assumptions=[
-        "layer A (Lean): the voting discipline of honest replicas is a HYPOTHESIS of the safety theorem: one vote per view and parent certified/lower are proved of the replica model in C03 (votes_increasing, vote_wellformed); the lock rule is not yet a Lean theorem of the replica model — it is checked on the implementation's own signing log by the cluster oracle (signature lock-rule) and is what the repaired VoteRule/CommitRule pair is modelled to do",
+        "layer A (Lean): the voting discipline of honest replicas is a HYPOTHESIS of the safety theorem: one vote per view and parent certified/lower are proved of the replica model in C03 (votes_increasing, vote_wellformed); of the lock rule only 'the lock never moves to a lower view' is a Lean theorem of the replica model (lock_never_lowers); that a vote locks the grandparent and respects the current lock is checked on the implementation's own signing log by the cluster oracle (signature lock-rule) and is what the repaired VoteRule/CommitRule pair is modelled to do",
         "a certificate accepted by an honest replica implies a quorum of genuine votes (C02 soundness theorems) and honest signatures are unforgeable (symbolic crypto)",
         "at most numFaulty(n) replicas Byzantine",
     ],
